@@ -340,6 +340,23 @@ func (b *Block) CompareLayout() []string {
 	if err != nil {
 		return append(diff, err.Error())
 	}
+	if len(c.Segs) == 0 {
+		// arithmetic-only case (MCBlobLayoutWide): width and start indices were compared above; the kinds
+		// of the real shares must still be consistent with them: a sequence start exactly at every start
+		n := 0
+		for _, s := range real {
+			if s.K == "start" {
+				if n >= len(c.Starts) || s.At != c.Starts[n] {
+					diff = append(diff, fmt.Sprintf("sequence start %d at %d, model %v", n, s.At, c.Starts))
+				}
+				n++
+			}
+		}
+		if n != len(c.Starts) {
+			diff = append(diff, fmt.Sprintf("%d sequence starts, model has %d blobs", n, len(c.Starts)))
+		}
+		return diff
+	}
 	if len(real) != len(c.Segs) {
 		diff = append(diff, fmt.Sprintf("segments: real %v model %v", real, c.Segs))
 	} else {
@@ -432,4 +449,41 @@ func (g *MemGetter) HeaderByHeight(_ context.Context, height uint64) (*header.Ex
 		return nil, fmt.Errorf("no header at %d", height)
 	}
 	return b.Header, nil
+}
+
+// InRowPaddingThenTwoStarts reports whether the REAL square has a row of one namespace shaped
+// [shares of earlier blob(s)][namespace padding][blob completing in the row][another blob start]
+// (BlobLayout!InRowPaddingThenTwoStarts, read from the real shares).
+func (b *Block) InRowPaddingThenTwoStarts() bool {
+	for r := 0; r < b.W; r++ {
+		row := b.ODS[r*b.W : (r+1)*b.W]
+		for c := 1; c < b.W; c++ {
+			ns := row[c].Namespace()
+			if ModelNs(ns) < 2 || ModelNs(ns) > 8 || !row[c].IsPadding() {
+				continue
+			}
+			// a non-padding share of the namespace before the padding, in this row
+			before := false
+			for d := 0; d < c; d++ {
+				if row[d].Namespace().Equals(ns) && !row[d].IsPadding() {
+					before = true
+				}
+			}
+			if !before {
+				continue
+			}
+			// two sequence starts of the namespace behind it, in this row
+			starts := 0
+			for d := c + 1; d < b.W; d++ {
+				sh := row[d]
+				if sh.Namespace().Equals(ns) && !sh.IsPadding() && sh.IsSequenceStart() {
+					starts++
+				}
+			}
+			if starts >= 2 {
+				return true
+			}
+		}
+	}
+	return false
 }
